@@ -332,6 +332,66 @@ harnesses! {
         shape_call!(nd, r, r, f64, 2, 4, 5, into, false);
         forget(r);
     }
+
+    // FftFixedIn with a chunk smaller than the FFT block: the first call completes no block and
+    // advertises ZERO output frames - the output shape must still be validated
+    #[kani::unwind(5)]
+    #[kani::stub(realfft::RealFftPlanner::<f64>::new, crate::stubs::planner_new)]
+    #[kani::stub(realfft::RealFftPlanner::<f64>::plan_fft_forward, crate::stubs::plan_fwd)]
+    #[kani::stub(realfft::RealFftPlanner::<f64>::plan_fft_inverse, crate::stubs::plan_inv)]
+    #[kani::stub(rubato::sinc::make_sincs, crate::stubs::make_sincs_unit)]
+    fn c13_shape_fti_zero_output_lite(nd) {
+        let mut r = FftFixedIn::<f64>::new(2, 3, 1, 1, 2).unwrap();
+        check!(r.output_frames_next() == 0, "C13.harness_zero_output_config[base]");
+        shape_call!(nd, r, r, f64, 2, 3, 4, into, false);
+        forget(r);
+    }
+
+    // a failed call in the middle of a stream: history with signal, one of three concrete malformed
+    // calls (symbolic selector), then a valid call compared with a twin that never saw the failure
+    #[kani::unwind(10)]
+    fn c13_ffo_failed_call_midstream(nd) {
+        let mut r = FastFixedOut::<f64>::new(0.75, 1.0, PolynomialDegree::Linear, 2, 1).unwrap();
+        let mut t = FastFixedOut::<f64>::new(0.75, 1.0, PolynomialDegree::Linear, 2, 1).unwrap();
+        let mut x = [0.0f64; 24];
+        crate::drive::fill_line(&mut x[..], 0);
+        let mut y = [SENT; 2];
+        let mut pos = 0usize;
+        let mut k = 0;
+        while k < 2 {
+            let n = r.input_frames_next();
+            check!(n == t.input_frames_next(), "C13.harness_twins_in_step[base]");
+            nd.assume(pos + n <= 24);
+            check!(r.process_into_buffer(&[&x[pos..pos + n]], &mut [&mut y[..]], None).is_ok(), "C03.ok[base]");
+            check!(t.process_into_buffer(&[&x[pos..pos + n]], &mut [&mut y[..]], None).is_ok(), "C03.ok[base]");
+            pos += n;
+            k += 1;
+        }
+        let which = nd.u8();
+        nd.assume(which < 3);
+        let n = r.input_frames_next();
+        nd.assume(pos + n <= 24 && n >= 1);
+        let mut z = [SENT; 2];
+        let e = if which == 0 {
+            r.process_into_buffer(&[&x[pos..pos + n - 1]], &mut [&mut z[..]], None)          // input one frame short
+        } else if which == 1 {
+            r.process_into_buffer(&[&x[pos..pos + n]], &mut [&mut z[..1]], None)              // output one frame short
+        } else {
+            r.process_into_buffer(&[&x[pos..pos + n], &x[pos..pos + n]], &mut [&mut z[..]], None) // too many input channels
+        };
+        check!(e.is_err(), "C13.err_expected[base]");
+        check!(z[0] == SENT && z[1] == SENT, "C13.writes_nothing[base]");
+        check!(r.input_frames_next() == n, "C13.getters_unchanged[base]");
+        let mut a = [SENT; 2];
+        let mut b = [SENT; 2];
+        let ra = r.process_into_buffer(&[&x[pos..pos + n]], &mut [&mut a[..]], None);
+        let rb = t.process_into_buffer(&[&x[pos..pos + n]], &mut [&mut b[..]], None);
+        check!(matches!((&ra, &rb), (Ok(p), Ok(q)) if p == q), "C13.state_unchanged_counts[base]");
+        check!(a[0].to_bits() == b[0].to_bits() && a[1].to_bits() == b[1].to_bits(), "C13.state_unchanged_output[base]");
+        cover!(which == 1, "short output variant");
+        forget(r); forget(t);
+    }
+
     // ---------------------------------------------------------------- process(): the allocating wrapper
     #[kani::unwind(5)]
     fn c13_process_mask(nd) {
